@@ -51,6 +51,17 @@ def model_lines(model, tag, cases):
     return [[int(x) for x in vlib.dec_line(l)] if not l.startswith("21") else None for l in out]
 
 
+def model_lines_raw(model, tag, cases):
+    rc, out, err = vlib.run_lines([model], [vlib.enc_case([tag] + list(c)) for c in cases])
+    if rc != 0 or len(out) != len(cases):
+        raise vlib.BuildError("model run failed (%s): %s" % (tag, err[-500:]))
+    res = []
+    for l in out:
+        f = vlib.dec_line(l)
+        res.append(tuple(None if x == b"-" else int(x) for x in f))
+    return res
+
+
 def corpus_sources(quick):
     res = []
     sd = os.path.join(vlib.REPO, "samples")
@@ -253,6 +264,55 @@ def check(run, replay):
             found.setdefault(kind, []).append((path, cpp, d))
     run.extra["generated_program_features (clang-accepted programs)"] = dict(feat_hist)
     run.extra["program_stats"] = dict(stats)
+
+    # ---- stream 4: overload sets (Scope::findFunction fragment): model = code, and code vs clang
+    ff_known = []
+    nov = 40 if quick else 1500
+    for k in range(nov):
+        src, sigs, calls = NC.gen_overloads(rng, lambda sg, cs: [b is not None for (_, b) in model_lines_raw(model, "ff", [NC.ff_case(sg, a) for a in cs])])
+        if not calls:
+            continue
+        path = write(os.path.join(WORK, "ov.cpp"), src)
+        import subprocess
+        subprocess.run([vlib.CPPCHECK, "-q", "--dump", "--std=c++17", path], stdout=subprocess.PIPE, stderr=subprocess.PIPE, timeout=60)
+        try:
+            uses = NC.dump_links(path + ".dump")[0]
+        except Exception:
+            stats["ov_no_dump"] += 1
+            continue
+        ast = NC.clang_ast(path, True)
+        cl = {}
+        if ast is not None:
+            decls, cuses = NC.clang_links(ast)
+            for (l, c, name, did, kind) in cuses:
+                if name == "ov" and did in decls:
+                    cl[l] = decls[did]["line"] - 1
+            stats["ov_clang_accepted"] += 1
+        else:
+            stats["ov_clang_rejected"] += 1
+        mo = model_lines_raw(model, "ff", [NC.ff_case(sigs, at) for (_, at) in calls])
+        for (line, at), (mi, bi) in zip(calls, mo):
+            impl = [sorted(u[5])[0][0] - 1 for u in uses if u[0] == line and u[2] == "ov" and u[5]]
+            impl_i = impl[0] if impl else None
+            run.count("findFunction overloads", None, nontrivial="%s|%s" % (sigs, at),
+                      bucket="model=%s,clang=%s" % ("none" if mi is None else "some", "rejected" if ast is None else "accepted"))
+            if mi != impl_i:
+                run.stream("findFunction overloads")["disagreements"] += 1
+                run.violation("ffmodel:" + hashlib.sha1(src.encode()).hexdigest()[:10], "find_function model and Scope::findFunction disagree: model %s, code %s" % (mi, impl_i),
+                              {"broken": "correspondence findFunction", "program": src, "call_line": line, "model": mi, "impl": impl_i}, found_input=False)
+                continue
+            if ast is not None and line in cl and impl_i is not None and impl_i != cl[line]:
+                rec = {"program": src, "call_line": line, "cppcheck_overload": src.split("\n")[impl_i], "clang_overload": src.split("\n")[cl[line]],
+                       "model_index": mi, "cpp_best_index": bi}
+                if bi == cl[line]:
+                    ff_known.append(rec)
+                else:
+                    run.violation("ffspec:" + hashlib.sha1(src.encode()).hexdigest()[:10], "clang's overload is not the specification's best viable function", rec, found_input=False)
+    if ff_known:
+        rec = min(ff_known, key=lambda r: len(r["program"]))
+        rec["occurrences_this_run"] = len(ff_known)
+        run.violation("findFunction-fallback-ranking",
+                      "Scope::findFunction links a call to another overload than the compiler selects: %s instead of %s" % (rec["cppcheck_overload"], rec["clang_overload"]), rec)
 
     for kind, lst in found.items():
         path, cpp, d = min(lst, key=lambda x: os.path.getsize(x[0]))
